@@ -65,8 +65,9 @@ impl Config {
         let mut log_input_size = self.log_input_size;
 
         for i in 1..n_layers {
-            let fri_step = self.fri_step_sizes[i];
-            let table_commitment = &self.inner_layers[i - 1];
+            let fri_step = *self.fri_step_sizes.get(i).ok_or(Error::LayerCountMismatch)?;
+            let table_commitment =
+                self.inner_layers.get(i - 1).ok_or(Error::LayerCountMismatch)?;
             log_input_size -= fri_step;
             sum_of_step_sizes += fri_step;
 
@@ -108,6 +109,8 @@ pub enum Error {
     OutOfBounds { min: u64, max: u64 },
     #[error("invalid first fri step")]
     FirstFriStepInvalid,
+    #[error("fewer fri steps or inner layer configs than n_layers")]
+    LayerCountMismatch,
     #[error("invalid value for column count, expected {expected}, got {actual}")]
     InvalidColumnCount { expected: Felt, actual: Felt },
     #[error("log input size mismatch, expected {expected}, got {actual}")]
@@ -128,6 +131,8 @@ pub enum Error {
     OutOfBounds { min: u64, max: u64 },
     #[error("invalid first fri step")]
     FirstFriStepInvalid,
+    #[error("fewer fri steps or inner layer configs than n_layers")]
+    LayerCountMismatch,
     #[error("invalid value for column count, expected {expected}, got {actual}")]
     InvalidColumnCount { expected: Felt, actual: Felt },
     #[error("log input size mismatch, expected {expected}, got {actual}")]
